@@ -34,6 +34,15 @@ type anchorType struct {
 type anchorFunc struct {
 	Sig string   `json:"s"`
 	Ext []string `json:"x,omitempty"`
+	// Full: the name the rules and the reviewed-idiom tables know the function by (relName at recording time)
+	Full string `json:"f,omitempty"`
+	// CF: the callee name (types.Func.FullName) the rules compare call sites with
+	CF string `json:"c,omitempty"`
+	// parameter / result types and names in recorded order (normsig.go)
+	PT []string `json:"pt,omitempty"`
+	PN []string `json:"pn,omitempty"`
+	RT []string `json:"rt,omitempty"`
+	RN []string `json:"rn,omitempty"`
 }
 type anchorTable struct {
 	Types map[string]map[string]anchorType `json:"types"`
@@ -44,6 +53,17 @@ var (
 	oldTypeName  = map[*types.TypeName]string{}
 	oldFuncName  = map[*types.Func]string{}
 	oldFieldName = map[*types.Var]string{}
+	// movedFunc: a recorded function that is absent under its recorded receiver, and the function of the current tree
+	// that is taken for it: a method made a plain function (or the reverse, or moved to another receiver) under the
+	// same name, or under a new name with the same external callees. Keyed by rel+"|"+recorded key.
+	movedFunc    = map[string]*types.Func{}
+	movedFuncObj = map[*types.Func]string{}
+	movedFull    = map[*types.Func]string{}
+	// recordedFull: rel|key -> the recorded rendering of a function that still exists under its recorded receiver
+	// type and name (the receiver may have changed between pointer and value)
+	recordedFull = map[string]string{}
+	recordedCF   = map[string]string{}
+	movedCF      = map[*types.Func]string{}
 	renameNotes  []string
 )
 
@@ -68,6 +88,9 @@ func vname(v *types.Var) string {
 func funcObjName(f *types.Func) string {
 	if n, ok := oldFuncName[f.Origin()]; ok {
 		return n
+	}
+	if k, ok := movedFuncObj[f.Origin()]; ok {
+		return k[strings.LastIndex(k, ".")+1:]
 	}
 	return f.Name()
 }
@@ -191,6 +214,10 @@ func fingerprintFunc(w *World, f *ssa.Function) (key string, af anchorFunc, ok b
 		}
 	}
 	sort.Strings(af.Ext)
+	af.Full = relName(f)
+	af.CF = unrename(o.Origin().FullName(), o)
+	af.PT, af.PN = tupleStrings(sig.Params())
+	af.RT, af.RN = tupleStrings(sig.Results())
 	return key, af, true
 }
 
@@ -250,6 +277,16 @@ func (w *World) detectRenames() {
 	var tab anchorTable
 	if json.Unmarshal(anchorsJSON, &tab) != nil || tab.Types == nil {
 		return
+	}
+	for rel, rec := range tab.Funcs {
+		for k, af := range rec {
+			if af.Full != "" {
+				recordedFull[rel+"|"+k] = af.Full
+			}
+			if af.CF != "" {
+				recordedCF[rel+"|"+k] = af.CF
+			}
+		}
 	}
 	// ---- types ----
 	for _, p := range w.Pkgs {
@@ -430,6 +467,58 @@ func (w *World) detectRenames() {
 			if best != nil && bestJ >= 0.6 && second < bestJ {
 				oldFuncName[best.obj.Origin()] = base
 				renameNotes = append(renameNotes, "function "+rel+"."+best.key+" is taken as the recorded "+k)
+				continue
+			}
+			// a method made a function (the receiver dropped or passed as a parameter), a function made a method, a
+			// method moved to another receiver: same name, another receiver, and the only such function
+			var same, alike []*cand
+			bestJ, second = 0.0, 0.0
+			for ci := range byRel[rel] {
+				c := &byRel[rel][ci]
+				if _, known := rec[c.key]; known {
+					continue
+				}
+				if _, taken := oldFuncName[c.obj.Origin()]; taken {
+					continue
+				}
+				if _, taken := movedFuncObj[c.obj.Origin()]; taken || c.obj.Exported() {
+					continue
+				}
+				cbase := c.key
+				if i := strings.IndexByte(c.key, '.'); i >= 0 {
+					cbase = c.key[i+1:]
+				}
+				if cbase == base {
+					same = append(same, c)
+					continue
+				}
+				if len(want.Ext) >= 2 {
+					if j := jaccard(c.af.Ext, want.Ext); j >= 0.75 {
+						if j > bestJ {
+							second, bestJ = bestJ, j
+							alike = []*cand{c}
+						} else if j > second {
+							second = j
+						}
+					}
+				}
+			}
+			var pick *cand
+			if len(same) == 1 {
+				pick = same[0]
+			} else if len(same) == 0 && len(alike) == 1 && second < bestJ {
+				pick = alike[0]
+			}
+			if pick != nil {
+				movedFunc[rel+"|"+k] = pick.obj.Origin()
+				movedFuncObj[pick.obj.Origin()] = k
+				if want.Full != "" {
+					movedFull[pick.obj.Origin()] = want.Full
+				}
+				if want.CF != "" {
+					movedCF[pick.obj.Origin()] = want.CF
+				}
+				renameNotes = append(renameNotes, "function "+rel+"."+pick.key+" is taken as the recorded "+k+" (receiver or name changed)")
 			}
 		}
 	}
@@ -461,4 +550,28 @@ func sigFingerprint(sig *types.Signature) string {
 		return types.NewTuple(vars...)
 	}
 	return typeStr(types.NewSignatureType(nil, nil, nil, strip(sig.Params()), strip(sig.Results()), sig.Variadic()))
+}
+
+// recordedCalleeName: the recorded callee name of a repository function that was moved (receiver or name changed) or
+// whose receiver changed between pointer and value; "" when the function is known under its current name.
+func recordedCalleeName(fo *types.Func) string {
+	fo = fo.Origin()
+	if cf, ok := movedCF[fo]; ok {
+		return cf
+	}
+	sig, ok := fo.Type().(*types.Signature)
+	if !ok || sig.Recv() == nil || fo.Pkg() == nil {
+		return ""
+	}
+	key := funcObjName(fo)
+	if r := recvNameOf(sig); r != "" {
+		key = r + "." + key
+	}
+	if cf := recordedCF[relOfPkg(fo.Pkg())+"|"+key]; cf != "" {
+		_, nowPtr := sig.Recv().Type().(*types.Pointer)
+		if wasPtr := strings.HasPrefix(cf, "(*"); wasPtr != nowPtr {
+			return cf
+		}
+	}
+	return ""
 }
